@@ -85,7 +85,7 @@ def make_queries(rng, rg, tier):
     stages = ['all'] + [s['name'] for s in rg.stages]
     for n in names:
         for stg in stages:
-            for u in rng.sample(recipes.TOTAL_UNITS, 2):
+            for u in rng.sample(recipes.TOTAL_UNITS, 2) + ([rng.choice(recipes.DECA_UNITS)] if rng.random() < 0.3 else []):
                 qs.append({'q': 'flows', 'n': n, 'stage': stg, 'unit': u})
                 qs.append({'q': 'remaining', 'n': n, 'stage': stg, 'unit': u, 'mode': 'before'})
                 qs.append({'q': 'remaining', 'n': n, 'stage': stg, 'unit': u, 'mode': 'after'})
